@@ -89,6 +89,84 @@ func TestC15Check(t *testing.T) {
 			t.Fatalf("C15 violated: %s\nschema: %s", msg, ss)
 		}
 
+		// The same question for a schema with a past: a reciprocated pair is
+		// taken out, put back through AddTwoWayRel, and then loses one of its
+		// ends to RemoveRel. What Check says depends on what the schema holds
+		// now, not on how it got there.
+		type end struct {
+			typ int
+			rel jsonapi.Rel
+		}
+
+		pairs := [][2]end{}
+
+		for i := range ss.Types {
+			for _, x := range ss.Types[i].Rels {
+				if x.ToName == "" || x.FromType != ss.Types[i].Name {
+					continue
+				}
+
+				for j := range ss.Types {
+					if ss.Types[j].Name != x.ToType {
+						continue
+					}
+
+					for _, y := range ss.Types[j].Rels {
+						if y.FromName == x.ToName && y.FromType == ss.Types[j].Name && y.ToType == x.FromType && y.ToName == x.FromName && !(i == j && x.FromName == y.FromName) {
+							pairs = append(pairs, [2]end{{i, x}, {j, y}})
+						}
+					}
+				}
+			}
+		}
+
+		if len(pairs) > 0 {
+			pr := pairs[rapid.IntRange(0, len(pairs)-1).Draw(t, "edited-pair")]
+			x, y := pr[0].rel, pr[1].rel
+
+			specs := make([]gen.TypeSpec, len(ss.Types))
+			for i := range ss.Types {
+				specs[i] = ss.Types[i]
+				specs[i].Rels = append([]jsonapi.Rel{}, ss.Types[i].Rels...)
+			}
+
+			ss2 := gen.BuildSchema(specs)
+
+			var err error
+
+			if p := oracle.Try(func() {
+				ss2.Schema.RemoveRel(x.FromType, x.FromName)
+				ss2.Schema.RemoveRel(y.FromType, y.FromName)
+				err = ss2.Schema.AddTwoWayRel(x)
+				ss2.Schema.RemoveRel(y.FromType, y.FromName)
+			}); p != nil {
+				t.Fatalf("C15 violated: editing the schema %s\nschema: %s", p, ss)
+			}
+
+			if err == nil {
+				// (AddTwoWayRel writes the pair as it sees fit - FromOne of the
+				// inverse - so the description follows the schema for x)
+				for k, rel := range ss2.Types[pr[0].typ].Rels {
+					if rel.FromName == x.FromName {
+						ss2.Types[pr[0].typ].Rels[k] = ss2.Schema.GetType(x.FromType).Rels[x.FromName]
+					}
+				}
+
+				kept := []jsonapi.Rel{}
+				for _, rel := range ss2.Types[pr[1].typ].Rels {
+					if rel.FromName != y.FromName {
+						kept = append(kept, rel)
+					}
+				}
+
+				ss2.Types[pr[1].typ].Rels = kept
+
+				if msg, _, _ := checkOracle(ss2); msg != "" {
+					t.Fatalf("C15 violated: %s\nschema (after %s was put back with AddTwoWayRel and %s.%s removed again): %s", msg, gen.RelString(x), y.FromType, y.FromName, ss2)
+				}
+			}
+		}
+
 		twoWay := 0
 
 		for i := range ss.Types {
